@@ -18,7 +18,7 @@ def lines(name):
 
 def kind(line):
     k = line[:1]
-    return {"F": "frame", "P": "pair", "A": "tracker_action", "T": "tracker_state", "V": "tracker_views"}.get(k, "other")
+    return {"F": "frame", "P": "pair", "A": "tracker_action", "T": "tracker_state", "V": "tracker_views", "C": "derived_velocity"}.get(k, "other")
 
 for other in ("alloc", "serde"):
     n = 0
